@@ -4,15 +4,19 @@ Functions under contract (real bodies): Transect.__init__, Transect.transect_dat
 utils.move_dimensions_to_end, name_to_data_array, Convention.ravel (DimensionConvention.ravel inline, C03).
 Callee contract: Transect.segments = a sequence of any length of segments (linear_index(k) a valid cell, start(k), end(k)) and Transect.points
 (the path vertices) -- produced by the geometric part.
-NOT decided deductively: Transect.segments / points / distance_along_line / _intersect_polygon themselves (shapely intersections, STRtree
-queries, cartopy projections, sorting by floating-point distances): bounded native stand-in harness/native/C18.py with the optional cfunits
-import satisfied by a stub -- labelled bounded.
+Also under contract (real bodies), against abstract geometry terms: Transect.segments and Transect._intersect_polygon -- routing only: which
+cells and which pieces become segments, what each segment carries, and the order of the list (FOREACH / COLLECT rule for the two nested
+loops over sequences of symbolic length; library contracts SH-STRTREE-QUERY, SH-INTERSECTION, PY-SORTED; callee contract
+distance_along_line(point) = D(point)).
+NOT decided deductively: what the geometry terms denote -- shapely intersections, cartopy projections, Transect.points,
+distance_along_line, floating-point distances: bounded native stand-in harness/native/C18.py with the optional cfunits import satisfied
+by a stub -- labelled bounded.
 """
 from __future__ import annotations
 
 import z3
 
-from contracts import inputs
+from contracts import base, inputs
 from pyvc import core
 from pyvc.api import (FIN, PathEnd, SFloat, XDataArray, call, cls, expect_ok, fn, method, mk_bool, mk_int, mk_real, new_interp, s_and, s_eq,
                       s_implies, sym_array, sym_size, zint)
@@ -33,6 +37,9 @@ def scenarios(tier):
             out.append({'name': f'prepare_data_array_for_transect[{cfg[0]}, layout {layout}]', 'fn': 'scn_prepare', 'kwargs': {'ci': ci, 'layout': layout}})
     for bounds in (False, True):
         out.append({'name': f'transect_dataset[depth bounds {"given" if bounds else "derived"}]', 'fn': 'scn_dataset', 'kwargs': {'bounds': bounds}})
+    for ci, cfg in enumerate(CONFIGS):
+        out.append({'name': f'Transect._intersect_polygon[{cfg[0]}]', 'fn': 'scn_intersect_polygon', 'kwargs': {'ci': ci}})
+        out.append({'name': f'Transect.segments[{cfg[0]}]', 'fn': 'scn_segments', 'kwargs': {'ci': ci}})
     return out
 
 
@@ -68,10 +75,10 @@ def _contracts(c, size):
     return nseg, li, st, en, cs
 
 
-def _setup(c, ci, extra, depth_attrs=None, depth_bounds=False):
+def _setup(c, ci, extra, depth_attrs=None, depth_bounds=False, use=None):
     from props.C11 import _accessors, _entry_points
     conv_name, kw, fdims = CONFIGS[ci]
-    it = new_interp()
+    it = new_interp(use=use) if use else new_interp()
     ds, conv = inputs.make_convention(it, c, conv_name, extra=extra, **kw)
     from pyvc.api import add_var
     nk = ds._sizes().get('k')
@@ -167,6 +174,161 @@ def scn_dataset(c, bounds):
         c.assume(b >= 0)
         c.assume(b < 2)
         c.check('given depth bounds are used as given', zb.arr.fn((kq, b)).same_bits(ds._vars['zbnds'].arr.fn((kq, b))))
+
+
+# ---------------------------------------------------------------------------------------------------------------------------------------
+# Transect.segments / _intersect_polygon against abstract geometry (SH-INTERSECTION, SH-STRTREE-QUERY, PY-SORTED)
+def _segments_setup(c, ci):
+    from pyvc.lib.shapely_ import Geom
+    it, ds, conv, conv_name, fdims, nk = _setup(c, ci, [], use=base.POLY_KEYS)
+    D = c.fresh_fn('distance_along_line', core.GeomSort, z3.RealSort())
+
+    def dist(it_, a):
+        p = a['point']
+        if not hasattr(p, 'z'):
+            raise core.Unsupported('distance_along_line of something that is not a point')
+        return SFloat(FIN, mk_real(D(p.z)))
+    it.contracts[('emsarray.transect', 'Transect.distance_along_line')] = Contract(
+        'emsarray.transect', 'Transect.distance_along_line', post=dist, verified_by='bounded native (C18 transect: distances)')
+    line = Geom(z3.Const('path', core.GeomSort))
+    T = cls(it, 'emsarray.transect', 'Transect')
+    tr = expect_ok(c, 'Transect(dataset, line)', lambda: it.instantiate(T, [ds, line], {'depth': 'zc'}))
+    return it, ds, conv, tr, line, D
+
+
+def scn_intersect_polygon(c, ci):
+    """_intersect_polygon(polygon) = exactly the LineString parts of polygon.intersection(path), in order."""
+    from pyvc.lib.shapely_ import KINDS, _fn
+    it, ds, conv, tr, line, D = _segments_setup(c, ci)
+    polys = base.abstract_polygons(conv)
+    n = c.fresh_int('cell')
+    c.assume(n >= 0)
+    c.assume(n < polys.shape[0])
+    c.assume(z3.Not(polys.hole(n.z)))
+    poly = core.resolve_maybe(polys.fn((n,)))
+    out = expect_ok(c, '_intersect_polygon returns', lambda: method(it, tr, '_intersect_polygon', poly))
+    inter = [e for e in c.events if e[0] == 'intersection']
+    c.check('the cell polygon is intersected with the path, once', len(inter) == 1 and mk_bool(z3.And(inter[0][1] == polys.poly(n.z), inter[0][2] == line.z)))
+    if len(inter) != 1:
+        raise PathEnd()
+    g = inter[0][3]
+    kind = g._kind()
+    LS = KINDS.index('LineString')
+    multi = z3.Or(kind == KINDS.index('MultiLineString'), kind == KINDS.index('GeometryCollection'))
+    if isinstance(out, list):
+        # single-part result (or a multi-point): the piece itself when it is a line, nothing otherwise
+        c.check('a single-part intersection is returned iff it is a line; a point contact gives no piece',
+                mk_bool(z3.And(z3.Not(multi), (kind == LS) == (len(out) == 1))) if len(out) <= 1 else False)
+        if len(out) == 1:
+            c.check('the piece is the intersection itself', out[0] is g)
+    else:
+        c.check('a multi-part intersection is decomposed into its parts', mk_bool(multi) if hasattr(out, 'selection') and getattr(out.source, 'parts_of', None) is g else False)
+        if hasattr(out, 'selection'):
+            j = c.fresh_int('part')
+            c.assume(j >= 0)
+            c.assume(j < out.source.length)
+            pj = out.source.at(j)
+            c.check('part j is kept iff it is a line (points are dropped), in the order of the parts',
+                    s_eq(core.truthy(out.selection.keep(j)), mk_bool(pj._kind() == LS)))
+            k = c.fresh_int('piece')
+            c.assume(k >= 0)
+            c.assume(k < out.length)
+            ek = out.at(k)
+            c.check('piece k is the k-th line part itself', mk_bool(ek.z == _fn('geom_part', core.GeomSort, z3.IntSort(), core.GeomSort)(g.z, zint(out.selection.sel(k)))))
+
+
+def scn_segments(c, ci):
+    """Transect.segments: one segment per (intersecting cell, line piece of polygon ∩ path), carrying that cell and that piece."""
+    from pyvc.lib.shapely_ import KINDS, _fn, AbsGeom
+    it, ds, conv, tr, line, D = _segments_setup(c, ci)
+    polys = base.abstract_polygons(conv)
+    shape = tuple(ds.info['shape']['face'])
+    conv_name, kw, fdims = CONFIGS[ci]
+    res = expect_ok(c, 'Transect.segments returns', lambda: it.getattr(tr, 'segments'))
+    chunks, prefix = core.collected_chunks(res)
+    if not chunks and not prefix:
+        hits = [e for e in c.events if e[0] == 'STRtree.query']
+        c.check('no segments only when no cell intersects the path', len(hits) == 1 and hits[0][1] is polys and hits[0][2] is line
+                and hits[0][3] == 'intersects' and _no_hits(c, polys, line))
+        raise PathEnd()
+    ok = len(chunks) == 1 and not prefix and isinstance(chunks[0], core.SortedView)
+    c.check('the result is the sorted list of the segments collected over the intersecting cells', ok)
+    if not ok:
+        raise PathEnd()
+    view = chunks[0]
+    src, pre = core.collected_chunks(view.source)
+    ok = len(src) == 1 and not pre and isinstance(src[0], core.Collected)
+    c.check('segments are collected by one loop over the cells', ok)
+    if not ok:
+        raise PathEnd()
+    outer = src[0]
+    q = getattr(outer.seq, 'query', None)
+    c.check("the loop runs over exactly the cells whose polygon intersects the path (STRtree over all polygons, predicate 'intersects')",
+            q is not None and q[0].geoms is polys and q[1] is line and q[2] == 'intersects')
+    leaves = outer.leaves()
+    pred = _fn('pred_intersects', core.GeomSort, core.GeomSort, z3.BoolSort())
+    li = outer.seq.fn((outer.k,)) if isinstance(outer.seq, NDArray) else outer.seq.at(outer.k)
+    c.check('an iterated cell has a polygon that intersects the path', mk_bool(z3.And(z3.Not(polys.hole(zint(li))), pred(line.z, polys.poly(zint(li))))))
+    # per (cell, piece): exactly one segment
+    if len(outer.items) == 1 and isinstance(outer.items[0], core.Collected):
+        inner = outer.items[0]
+        c.check('every line piece of a multi-part intersection gives exactly one segment', len(inner.items) == 1 and not isinstance(inner.items[0], core.Collected))
+        piece = inner.seq.at(inner.k)
+        src_parts = getattr(getattr(inner.seq, 'source', None), 'parts_of', None)
+        c.check('the pieces are the line parts of polygon(cell) ∩ path',
+                src_parts is not None and mk_bool(src_parts.z == _fn('geom_inter', core.GeomSort, core.GeomSort, core.GeomSort)(polys.poly(zint(li)), line.z)))
+    else:
+        c.check('a single-part intersection gives one segment if it is a line and none if it is a point',
+                len(outer.items) <= 1 and all(not isinstance(x, core.Collected) for x in outer.items))
+        piece = None
+    for (frames, seg), key in zip(leaves, view.keys):
+        a = seg.attrs
+        if piece is None:
+            g = AbsGeom(_fn('geom_inter', core.GeomSort, core.GeomSort, core.GeomSort)(polys.poly(zint(li)), line.z))
+            want_piece = g.z
+            c.check('no segment for a contact that is not a line', mk_bool(g._kind() == KINDS.index('LineString')))
+        else:
+            want_piece = piece.z
+        c.check("the segment's intersection is that piece of the path inside the cell, itself", hasattr(a['intersection'], 'z') and mk_bool(a['intersection'].z == want_piece)
+                and getattr(a['intersection'], 'built_from', None) is None)
+        c.check("the segment names the cell's linear index", s_eq(a['linear_index'], li))
+        c.check("the segment names the cell's native index", _same_index(conv_name, a['index'], unravel(li, shape)))
+        pg = core.resolve_maybe(a['polygon']) if isinstance(a['polygon'], core.Maybe) else a['polygon']
+        c.check("the segment carries the cell's polygon", getattr(pg, 'term', None) is not None and mk_bool(pg.term == polys.poly(zint(li))))
+        first = _fn('geom_coord', core.GeomSort, z3.IntSort(), core.GeomSort)(want_piece, z3.IntVal(0))
+        last = _fn('geom_coord', core.GeomSort, z3.IntSort(), core.GeomSort)(want_piece, _fn('geom_ncoords', core.GeomSort, z3.IntSort())(want_piece) - 1)
+        sp, ep = a['start_point'], a['end_point']
+        okp = hasattr(sp, 'z') and hasattr(ep, 'z')
+        c.check('start and end point are the two ends of the piece', okp and mk_bool(z3.Or(z3.And(sp.z == first, ep.z == last), z3.And(sp.z == last, ep.z == first))))
+        if okp:
+            c.check('start / end distance are the distances of the start / end point along the path',
+                    s_and(s_eq(a['start_distance'].val, mk_real(D(sp.z))), s_eq(a['end_distance'].val, mk_real(D(ep.z)))))
+            c.check('start is never after end', mk_bool(core.zreal(a['start_distance'].val) <= core.zreal(a['end_distance'].val)))
+        c.check('listed by increasing start distance, then end distance: the sort key of a segment is (start_distance, end_distance), ascending',
+                (not view.reverse) and isinstance(key, tuple) and len(key) == 2 and key[0] is a['start_distance'] and key[1] is a['end_distance'])
+
+
+def _no_hits(c, polys, line):
+    from pyvc.lib.shapely_ import _fn
+    pred = _fn('pred_intersects', core.GeomSort, core.GeomSort, z3.BoolSort())
+    n = c.fresh_int('anycell')
+    c.assume(n >= 0)
+    c.assume(n < polys.shape[0])
+    res = getattr(c, 'strtree_results', [])
+    if len(res) != 1:
+        return False
+    res[0].position_fn(n)        # ghost: instantiate "a member has a position below the count" at the arbitrary cell
+    return mk_bool(z3.Or(polys.hole(n.z), z3.Not(pred(line.z, polys.poly(n.z)))))
+
+
+def _same_index(conv_name, got, comps):
+    comps = tuple(comps)
+    if conv_name in ('CFGrid1D', 'CFGrid2D'):
+        return isinstance(got, tuple) and len(got) == len(comps) and s_and(*[s_eq(g, w) for g, w in zip(got, comps)])
+    if not (isinstance(got, tuple) and len(got) == len(comps) + 1):
+        return False
+    kind = got[0]
+    return getattr(kind, 'name', None) in ('face',) and s_and(*[s_eq(g, w) for g, w in zip(got[1:], comps)])
 
 
 NATIVE = {'': 'transect'}
